@@ -570,6 +570,9 @@ impl Check for C16 {
         }
         if c.zooms {
             argv.extend([s("--zooms"), s("10,40")]);
+        } else if c.threads == 1 {
+            argv.extend([s("--nzooms"), s("2")]);
+            out.count("conversions_with_nzooms", 1);
         }
         // half of the configurations write over existing, longer files (a stale tail left behind an
         // output that is not truncated shows as trailing garbage / extra lines)
@@ -1468,6 +1471,32 @@ pub fn c17_tool(t: &AvgTool, out: &mut Outcome) {
             }
         }
     }
+    // values over bed with the name column in front (--names) and another delimiter
+    if t.regions == 1 && t.namecol.is_none() && !t.min_max {
+        let plain = {
+            let r = run_in(dir, &[s("bigwigvaluesoverbed"), s("in.bw"), s("regions.bed"), s("v_plain.txt")]);
+            if r.code == Some(0) { std::fs::read_to_string(dir.join("v_plain.txt")).ok() } else { None }
+        };
+        let argv = vec![s("bigwigvaluesoverbed"), s("in.bw"), s("regions.bed"), s("v_named.txt"), s("--names"), s("--delimiter"), s(";")];
+        let r = run_in(dir, &argv);
+        out.count("tool_values_runs_with_names_and_delimiter", 1);
+        let named = std::fs::read_to_string(dir.join("v_named.txt")).unwrap_or_default();
+        match plain {
+            Some(p) if r.code == Some(0) => {
+                // (the name printed is the interval, chrom:start-end)
+                let regs_names: Vec<String> = regs.iter().map(|x| format!("{}:{}-{}", x.0, x.1, x.2)).collect();
+                let ok = p.lines().count() == named.lines().count()
+                    && p.lines().zip(named.lines()).zip(regs_names.iter()).all(|((pl, nl), name)| {
+                        let want = if pl.is_empty() { format!("{}", name) } else { format!("{};{}", name, pl.replace('\t', ";")) };
+                        nl == want || nl == format!("{};", name)
+                    });
+                if !ok {
+                    out.fail("values_tool_rows_wrong", &tags, format!("{:?}: rows {:?}, the plain rows are {:?}", argv, named.lines().take(3).collect::<Vec<_>>(), p.lines().take(3).collect::<Vec<_>>()));
+                }
+            }
+            _ => out.fail("values_tool_failed", &tags, format!("{:?}: exit {:?} stderr {}", argv, r.code, r.stderr.chars().take(200).collect::<String>())),
+        }
+    }
     // values over bed (not for the regions of four thousand million bases: one number per base)
     if t.regions == 7 {
         return;
@@ -2066,6 +2095,34 @@ pub fn c06_tool(t: &InfoTool, out: &mut Outcome) {
         match field("itemCount:") {
             Some(g) if g == enc.data_count.to_string() => {}
             other => out.fail("info_tool_reports_wrong_summary", &tags, format!("itemCount printed as {:?}, file has {}", other, enc.data_count)),
+        }
+    }
+    // the other ways of asking: --chroms / --zooms add lines and change none of the summary lines;
+    // bigwiginfo --minmax prints the two extremes on one line
+    let mut argv2 = argv.clone();
+    argv2.extend([s("--chroms"), s("--zooms")]);
+    let r2 = run_in(dir, &argv2);
+    out.count("tool_info_runs", 1);
+    if r2.timed_out || r2.code != Some(0) {
+        out.fail("info_tool_failed", &tags, format!("{:?}: exit {:?} stderr {}", argv2, r2.code, r2.stderr.chars().take(300).collect::<String>()));
+    } else {
+        for l in r.stdout.lines() {
+            if !r2.stdout.lines().any(|x| x == l) {
+                out.fail("info_tool_reports_wrong_summary", &tags, format!("{:?}: the line {:?} of the plain output is missing or different", argv2, l));
+                break;
+            }
+        }
+        if !r2.stdout.lines().any(|l| l.contains("chr1") && l.contains(&size.to_string())) {
+            out.fail("info_tool_reports_wrong_summary", &tags, format!("{:?}: no line names chr1 with its size {}", argv2, size));
+        }
+    }
+    if !t.bed {
+        let argv3 = vec![s("bigwiginfo"), s("in.bb"), s("--minmax")];
+        let r3 = run_in(dir, &argv3);
+        out.count("tool_info_runs", 1);
+        let want = format!("{:.6} {:.6}", mn, mx);
+        if r3.code != Some(0) || r3.stdout.trim() != want {
+            out.fail("info_tool_reports_wrong_summary", &tags, format!("{:?}: exit {:?}, printed {:?}, the file's total summary gives {:?}", argv3, r3.code, r3.stdout.trim(), want));
         }
     }
 }
